@@ -268,19 +268,25 @@ func (w *worker[T, JobType]) processNextJob() error {
 	case []byte:
 		var err error
 		if v, err = parseToJob[T](value); err != nil {
+			w.releaseWaiters(w.curProcessing.Load())
 			return err
 		}
 
 		if j, ok = v.(JobType); !ok {
+			w.releaseWaiters(w.curProcessing.Load())
 			return ErrFailedToCastJob
 		}
 
 		j.setInternalQueue(queue)
 	default:
+		w.releaseWaiters(w.curProcessing.Load())
 		return ErrFailedToCastJob
 	}
 
+	// An entry that is consumed without being dispatched may have been the last pending one:
+	// release the callers parked in WaitUntilFinished, nobody else will
 	if j.IsClosed() {
+		w.releaseWaiters(w.curProcessing.Load())
 		return nil
 	}
 
